@@ -6,6 +6,8 @@
 From Coq Require Import List ZArith Reals Lra.
 From ML Require Import Ops Vec VecR MatR LinAlg PSDConv Mahalanobis MahalanobisR C20Proof CovProof.
 From ML Require Import PinsC20.
+From ML Require Import NPNum C20Src.
+From MLgen Require Import Src_psd.
 Import ListNotations.
 Open Scope R_scope.
 
@@ -71,3 +73,16 @@ Qed.
 (* text-level tie: the functions this property's hand-written model and harness were written from are unchanged
    (digests regenerated from /repo on every run; Proofs/PinsC20.v) *)
 Definition C20_source_pins := pins_C20_ok.
+
+(* the translated source (gen/Src_psd.v): _check_sdp_from_eigen (default and explicit tolerance) and the two explicit
+   branches of components_from_metric are the model's, so the specification above is that of the code as it reads now *)
+Definition C20_source_stmt : Prop :=
+  (forall (eps : R) (w : Rv) (tol_arg : option R),
+     @src_check_sdp ROps eps w tol_arg =
+     @check_sdp ROps w (match tol_arg with None => @default_tol ROps eps w | Some x => x end)) /\
+  (forall m : Rv, @src_cfm_diag ROps m = @cfm_diag ROps m) /\
+  (forall (w : Rv) (V : Rm), @src_cfm_eigen ROps w V = @cfm_eigen ROps w V).
+
+Theorem C20_source : C20_source_stmt.
+Proof. exact (conj src_check_sdp_eq (conj src_cfm_diag_eq src_cfm_eigen_eq)). Qed.
+Print Assumptions C20_source.
